@@ -313,6 +313,19 @@ class ArrGen:
         if fl.get('explicit_one', True):
             for a in A:
                 a.explicit_one = r.random() < 0.3
+        # arrays whose horizontal dimension is NOT the first one: layouts (m, n) and (c, n).  They are used by
+        # stmt_vecdim_late only (and declared / filled / printed only when such a statement was generated)
+        ext1 = (lambda: Dim(1, 'm', 0))
+        hz = (lambda: Dim(1, 'n', r.choice([0, 1, 2])))
+        self.vd_arrays = [Arr('vm1', 'real', [ext1(), hz()]), Arr('vm2', 'real', [ext1(), hz()]),
+                          Arr('vm3', 'real', [ext1(), hz()]), Arr('wm1', 'int', [ext1(), hz()]),
+                          Arr('wm2', 'int', [ext1(), hz()]), Arr('wm3', 'int', [ext1(), hz()]),
+                          Arr('vc1', 'real', [Dim(1, 'c', 3), hz()]), Arr('vc2', 'real', [Dim(1, 'c', 3), hz()]),
+                          Arr('vc3', 'real', [Dim(1, 'c', 3), hz()])]
+        self.vd_used = []
+        if fl.get('explicit_one', True):
+            for a in self.vd_arrays:
+                a.explicit_one = r.random() < 0.3
         if fl.get('derived_dims'):
             # locals whose shape is given by derived-type members
             self.dd_arrays = [Arr('rq', 'real', [Dim(1, 'n', 0)], intent=None), Arr('iq', 'int', [Dim(1, 'n', 0)], intent=None)]
@@ -954,6 +967,37 @@ class ArrGen:
         st = Stmt([f'{ref(lhs, lt)} = {self.combine(typ, ops)}'], {'vecdim', 'vecdim-' + v}, None)
         return st
 
+    def stmt_vecdim_late(self):
+        """sections over the horizontal dimension ks:ke of arrays laid out (m, n) / (c, n): a range that
+        resolve_vector_dimension leaves alone comes BEFORE the horizontal one (t(:, ks:ke) = q(:, ks:ke))"""
+        r = self.rng
+        grp = r.choice(['vm', 'vm', 'wm', 'vc'])
+        c = [a for a in self.vd_arrays if a.name.startswith(grp)]
+        typ = c[0].typ
+        lhs = r.choice(c)
+        ext = 'm' if grp != 'vc' else '3'
+        f1 = r.choice(['colon', 'colon', 'full', 'tail', 'strided', 'mixed'])
+        first = {'colon': ':', 'full': f'1:{ext}', 'tail': f'2:{ext}', 'strided': f'1:{ext}:2'}.get(f1)
+
+        def ref(a, rngtxt):
+            one = first if first is not None else r.choice([':', f'1:{ext}'])
+            return f'{a.name}({one}, {rngtxt})'
+        v = r.choice(['kske', 'kske', '1ke', 'ksn', 'shift'])
+        lt, rt = {'kske': ('ks:ke', 'ks:ke'), '1ke': ('1:ke', '1:ke'), 'ksn': ('ks:n', 'ks:n'), 'shift': ('ks:ke', None)}[v]
+        ops = []
+        for b in r.sample([x for x in c if x is not lhs], r.choice([1, 2, 2])):
+            if rt is None:
+                ops.append(ref(b, 'ks+1:ke+1') if b.dims[1].pad >= 1 else ref(b, 'ks:ke'))
+            else:
+                ops.append(ref(b, rt))
+            if b not in self.vd_used:
+                self.vd_used.append(b)
+        if lhs not in self.vd_used:
+            self.vd_used.append(lhs)
+        return Stmt([f'{ref(lhs, lt)} = {self.combine(typ, ops)}'],
+                    {'vecdim-late', 'vecdim-late-' + v, 'vecdim-late-first-' + f1, 'vecdim-late-layout-' + ('mn' if grp != 'vc' else 'cn')},
+                    None)
+
     def stmt_derived_dims(self):
         """locals shaped by derived-type members (substitute_derived_type_bounds)"""
         r = self.rng
@@ -982,6 +1026,8 @@ class ArrGen:
             kinds += ['reduction']
         if fl.get('vecdim', True):
             kinds += ['vecdim'] * 2
+        if fl.get('vecdim_late', True):
+            kinds += ['vecdim_late'] * 2
         if fl.get('derived_dims'):
             kinds += ['derived'] * 2
         stmts = []
@@ -991,7 +1037,8 @@ class ArrGen:
             k = r.choice(kinds)
             st = {'assign': self.stmt_assign, 'loop_elem': self.stmt_loop_elem, 'whole': self.stmt_whole, 'in_loop': self.stmt_in_loop,
                   'where': self.stmt_where, 'call': self.stmt_call, 'reduction': self.stmt_reduction,
-                  'vecdim': self.stmt_vecdim, 'derived': self.stmt_derived_dims}[k]()
+                  'vecdim': self.stmt_vecdim, 'vecdim_late': self.stmt_vecdim_late,
+                  'derived': self.stmt_derived_dims}[k]()
             if st is None:
                 continue
             if st.hostile:       # only deliberately requested hostile statements are allowed
@@ -1040,7 +1087,7 @@ class ArrGen:
         self.stmts = stmts
         for s in stmts:
             self.features |= s.tags
-        arrays = list(self.arrays)
+        arrays = list(self.arrays) + [a for a in self.vd_arrays if a in self.vd_used]
         uses, extra, helper = [], [], ''
         if fl.get('calls', True):
             uses.append('use hmod, only: hexp, hass, hass2')
